@@ -141,6 +141,12 @@ def k3_inherit(res, tier):
     # the builtin tables are consulted for real (which classes count as value classes is the subject)
     e.havoc = [rx for rx in e.havoc if 'BuiltIn' not in rx.pattern]
 
+    def m_inherit(e_, a, c):
+        from .vmabs import object_of
+        e_.path_state['events'].append(('inherit', object_of(e_, a[2]).id))
+        return UNIT
+    e.model(r'^(laythe_core::)?(object::)?(class::)?Class::inherit$', m_inherit)
+
     def path(e):
         st = W.fresh_state(e)
         e.add_constraint(z3.UGE(st.sp, st.fb + 2))
@@ -153,7 +159,15 @@ def k3_inherit(res, tier):
             if pe.kind not in END_KINDS:
                 raise
             outcome = pe.kind
+        inh = [x for x in e.path_state['events'] if x[0] == 'inherit']
+        for _, sid in inh:
+            # whatever route resolved the superclass (a class value, or the box a captured `super` lives in)
+            for k in VALUE_CLASSES:
+                key = W.field_key('vm::Vm', ['builtin', 'primitives', k]) + '.id'
+                e.check(sid != z3.BitVec(key, 64),
+                        'op_inherit: the class handed to Class::inherit is never a builtin value class (directly or through a boxed super)', {'class': k})
         if outcome == 'ok' and isinstance(s, EnumV) and s.variant_name() == 'Ok':
+            e.check(len(inh) == 1, 'op_inherit: a successful inherit links exactly one superclass')
             is_class = sup.is_kind(P, 'Class')
             for k in VALUE_CLASSES:
                 key = W.field_key('vm::Vm', ['builtin', 'primitives', k]) + '.id'
@@ -280,4 +294,40 @@ def k1_signature(res, tier):
     for r in results:
         if r.kind in ('oob', 'unreachable', 'ub', 'diverge', 'depth', 'panic'):
             res.fail(f'C16.K1:signature:{r.kind}', f'check_if_valid_call: path ends in {r.kind}: {str(r.info)[:200]}', {'path': str(r.info)})
+    summarize_paths(res, e, results, lambda r: r.info if isinstance(r.info, dict) else None, key_prefix='C16.K1:', unwind_ok=False)
+
+
+@obligation('C16.K1.method_arity', 'C16', programs=('core',))
+def k1_method_arity(res, tier):
+    """SignatureBuilder::method_arity for every arity: the signature of a native method counts the receiver in every bound (so that
+    the gate, which sees the receiver among the arguments, demands exactly as many explicit arguments as the native declares)"""
+    P = get_program('core')
+    e = Engine(P, loop_bound=4, timeout_s=60, max_depth=20)
+    f = P.lookup('SignatureBuilder::method_arity')
+    ar = P.enum_def('laythe_core::signature::Arity')
+    sb = P.struct_def('laythe_core::signature::SignatureBuilder') or P.struct_def('SignatureBuilder')
+    res.bounds = {'arity': 'Fixed / Variadic / Default with any counts below 255'}
+
+    def path(e):
+        av = z3.BitVec('arity_form', 64)
+        e.add_constraint(z3.ULT(av, len(ar.variants)))
+        k = e.concretize(av, list(range(len(ar.variants))))
+        form = ar.variants[k][0]
+        a, b = z3.BitVec('a', 8), z3.BitVec('b', 8)
+        e.add_constraint(z3.And(z3.ULT(a, 255), z3.ULT(b, 255), z3.ULE(a, b)))
+        pay = {0: Cell(a)} if form != 'Default' else {0: Cell(a), 1: Cell(b)}
+        s = Struct('laythe_core::signature::SignatureBuilder', {}, None)
+        s.f[sb.index_of('arity')] = Cell(EnumV('Arity', k, {form: pay}, None, ar))
+        s.f[sb.index_of('parameters')] = Cell(Opaque('&[ParameterBuilder]', 'params'))
+        r = e.call(f, [Ref(Cell(s))])
+        e.check(isinstance(r, EnumV) and r.variant_name() == form, 'method_arity: the arity form is kept')
+        if isinstance(r, EnumV) and r.variant_name() == form:
+            e.check(r.field(e, form, 0, 'u8').get(e) == a + 1, 'method_arity: the receiver is counted in the (minimum) argument count')
+            if form == 'Default':
+                e.check(r.field(e, form, 1, 'u8').get(e) == b + 1, 'method_arity: the receiver is counted in the maximum argument count')
+        return {'form': form}
+    results = e.explore(path)
+    for r in results:
+        if r.kind in ('oob', 'unreachable', 'ub', 'diverge', 'depth', 'panic'):
+            res.fail(f'C16.K1:method_arity:{r.kind}', f'method_arity: path ends in {r.kind}: {str(r.info)[:200]}', {'path': str(r.info)})
     summarize_paths(res, e, results, lambda r: r.info if isinstance(r.info, dict) else None, key_prefix='C16.K1:', unwind_ok=False)
